@@ -81,6 +81,8 @@ func (p *Pool) Get(key string, chainID *int64, netVersion json.RawMessage) (*Ins
 }
 
 func (p *Pool) dropLocked(in *Instance) {
+	// no graceful shutdown here: an instance is dropped because it crashed, misbehaved or is evicted
+	in.Signer.Kill()
 	in.Signer.Stop()
 	in.Backend.Close()
 	if p.inst[in.Key] == in {
